@@ -66,10 +66,8 @@ func c09R2R3(p *core.Prog, r *core.Report) {
 		if !ok {
 			continue
 		}
-		if lk, ok := ifi.Cond.(*ssa.Lookup); ok {
-			if m, ok := lk.X.Type().Underlying().(*types.Map); ok && isStringType(m.Key()) {
-				seenIf = b
-			}
+		if cnd, _ := core.StripNot(ifi.Cond, true); isMapMembership(cnd, 0) {
+			seenIf = b
 		}
 	}
 	writes := 0
@@ -98,7 +96,13 @@ func c09R2R3(p *core.Prog, r *core.Report) {
 			return
 		}
 		writes++
-		if seenIf == nil || !seenIf.Dominates(c.Block()) || (core.Reach{}).FromEdge(seenIf, seenIf.Succs[0])[c.(ssa.Instruction)] {
+		hit := 0
+		if seenIf != nil {
+			if _, pol := core.StripNot(core.LastInstr(seenIf).(*ssa.If).Cond, true); !pol {
+				hit = 1
+			}
+		}
+		if seenIf == nil || !seenIf.Dominates(c.Block()) || (core.Reach{}).FromEdge(seenIf, seenIf.Succs[hit])[c.(ssa.Instruction)] {
 			okDom = false
 		}
 	})
@@ -114,8 +118,12 @@ func c09R2R3(p *core.Prog, r *core.Report) {
 			if !ok {
 				continue
 			}
-			if _, isLk := ifi.Cond.(*ssa.Lookup); isLk {
-				if ret, isRet := core.LastInstr(b.Succs[0]).(*ssa.Return); isRet && !core.IsNilConst(core.ReturnOperand(ret, 0)) {
+			if cnd, pol := core.StripNot(ifi.Cond, true); isMapMembership(cnd, 0) {
+				hit := 0
+				if !pol {
+					hit = 1
+				}
+				if ret, isRet := core.LastInstr(b.Succs[hit]).(*ssa.Return); isRet && !core.IsNilConst(core.ReturnOperand(ret, 0)) {
 					refuses = true
 				}
 			}
@@ -477,21 +485,36 @@ func c09R6(p *core.Prog, r *core.Report) {
 		if !escapes {
 			return true
 		}
-		if handlers[fn] || fn.Parent() == nil || depth > 3 {
+		if handlers[fn] || depth > 3 {
 			return false
 		}
-		// immediately invoked literal: continue after each call in the parent
-		par := fn.Parent()
 		found := false
 		ok := true
-		core.Calls(par, func(c ssa.CallInstruction) {
-			if closureOf(c.Common().Value) == fn {
+		if fn.Parent() != nil {
+			// immediately invoked literal: continue after each call in the parent
+			par := fn.Parent()
+			core.Calls(par, func(c ssa.CallInstruction) {
+				if closureOf(c.Common().Value) == fn {
+					found = true
+					if !flagged(par, c.(ssa.Instruction), depth+1) {
+						ok = false
+					}
+				}
+			})
+			return found && ok
+		}
+		// a named helper that registers for its caller: continue after each of its calls made during the scan
+		for caller := range during {
+			core.Calls(caller, func(c ssa.CallInstruction) {
+				if _, isCall := c.(*ssa.Call); !isCall || core.CalleeFn(c) != fn {
+					return
+				}
 				found = true
-				if !flagged(par, c.(ssa.Instruction), depth+1) {
+				if !flagged(caller, c.(ssa.Instruction), depth+1) {
 					ok = false
 				}
-			}
-		})
+			})
+		}
 		return found && ok
 	}
 	lab := map[*ssa.Function]labeler{}
